@@ -296,6 +296,34 @@ func checkC11(r *Result) {
 		}
 		r.check(fmt.Sprint(es) == "[(x/dispute/keeper.Keeper).SlashAndJailReporter]", "ONCE-SLASH", "callers of EscrowReporterStake", "-", fmt.Sprint(es))
 	}
+	// ---- the walk through one backer's sources hands on what the previous source left uncovered, never the whole share again
+	if ud := need("(x/reporter/keeper.Keeper).undelegate"); ud != nil {
+		tmu := NewTermer()
+		left := func(t *Term) bool { // what deductFromdelegation could not cover, in whole tokens
+			return t.Op == "call:(cosmossdk.io/math.LegacyDec).TruncateInt" && len(t.Args) == 1 && t.Args[0].Op == "ext:0" && len(t.Args[0].Args) == 1 &&
+				t.Args[0].Args[0].Op == "call:(x/reporter/keeper.Keeper).deductFromdelegation"
+		}
+		n := 0
+		for _, cs := range P.CallSitesIn(ud) {
+			switch cs.Callee {
+			case "(x/reporter/keeper.Keeper).deductFromdelegation":
+				n++
+				a := tmu.Of(Arg(cs.Instr, 3))
+				r.check(strings.HasPrefix(a.Op, "param:4:"), "LIN-SLASH", "(x/reporter/keeper.Keeper).undelegate # the delegation is asked for the backer's whole share", P.Pos(cs.Pos()), "amount: "+a.Brief())
+			case "(x/reporter/keeper.Keeper).deductUnbondingDelegation":
+				n++
+				a := tmu.Of(Arg(cs.Instr, 3))
+				r.check(left(a), "LIN-SLASH", "(x/reporter/keeper.Keeper).undelegate # the unbonding entries are asked for what the delegation left uncovered", P.Pos(cs.Pos()), "amount: "+clip(a.String(), 160))
+			}
+		}
+		r.check(n == 2, "LIN-SLASH", "(x/reporter/keeper.Keeper).undelegate # one request to the delegation, one to the unbonding entries", P.Pos(ud.Pos()), fmt.Sprint(n))
+		for _, ret := range SuccessReturns(ud) {
+			t := tmu.Of(ResultOf(ret, 0))
+			ok := t.Op == "call:cosmossdk.io/math.ZeroInt" || left(t) ||
+				(t.Op == "ext:0" && len(t.Args) == 1 && t.Args[0].Op == "call:(x/reporter/keeper.Keeper).deductUnbondingDelegation")
+			r.check(ok, "LIN-SLASH", "(x/reporter/keeper.Keeper).undelegate # still owed = nothing, what the unbonding entries left, or what the delegation left when there are none", P.Pos(ret.Pos()), "returned: "+clip(t.String(), 160))
+		}
+	}
 	// ---- ESCROW-RECORD
 	if er := need("(x/reporter/keeper.Keeper).EscrowReporterStake"); er != nil {
 		var undelegates []*ssa.Call
